@@ -157,6 +157,8 @@ def readSub (parseNat : S → Option Nat) (kinds : List Kind) (res ann dset beg 
       (cursorOf parseNat b).bind fun b =>
       (unwrapP (en[i]?)).bind fun e =>
       (cursorOf parseNat e).bind fun e => .ok (.ann a (some (b, e)))
+    -- (an end without a begin: half an offset is refused) `endoffsets.get(i).map(|x| !x.is_empty()).unwrap_or(false)`
+    else if ((en[i]?).map (fun x => !x.isEmpty)).getD false then .err "CsvError"
     else .ok (.ann a none)
   | .res =>
     (getOrLastP res i).bind fun r => if r.isEmpty then .err "CsvError" else .ok (.res r)
@@ -199,7 +201,9 @@ def readTarget (parseNat : S → Option Nat) (row : Row) : Out Target :=
         | .ann =>
           if !row.begin.isEmpty && !row.end_.isEmpty then
             (cursorOf parseNat row.begin).bind fun b => (cursorOf parseNat row.end_).bind fun e => .ok (.simple (.ann row.annotation (some (b, e))))
-          else .ok (.simple (.ann row.annotation none))
+          else if row.begin.isEmpty && row.end_.isEmpty then .ok (.simple (.ann row.annotation none))
+          -- (half an offset is refused)
+          else .err "CsvError"
         | .res => .ok (.simple (.res row.resource))
         | .set => .ok (.simple (.set row.dataset))
         | .key => .ok (.simple (.key row.dataset row.key))
